@@ -7,20 +7,22 @@ CONSTANTS MaxReqs
 
 Shapes == {[hl |-> 2, bl |-> b, expect100 |-> e, close |-> c, bad |-> bd, big |-> bg] :
               b \in {0, 3}, e \in BOOLEAN, c \in BOOLEAN, bd \in BOOLEAN, bg \in BOOLEAN}
+\* the peer may close in the middle of the last request
+CutLast(rs, cut) == IF cut THEN [rs EXCEPT ![Len(rs)].partial = TRUE] ELSE rs
 Sane == {s \in Shapes : (s.expect100 => s.bl > 0) /\ (s.big => s.bl > 0) /\ ~(s.bad /\ s.big) /\ ~(s.bad /\ s.expect100)}
 
 RECURSIVE Layout(_, _)
 Layout(ss, at) == IF ss = << >> THEN << >>
                   ELSE LET s == Head(ss) IN
                        <<[start |-> at, headEnd |-> at + s.hl, end |-> at + s.hl + s.bl, bodyLen |-> s.bl,
-                          expect100 |-> s.expect100, close |-> s.close, bad |-> s.bad, big |-> s.big]>>
+                          expect100 |-> s.expect100, close |-> s.close, bad |-> s.bad, big |-> s.big, partial |-> FALSE]>>
                        \o Layout(Tail(ss), at + s.hl + s.bl)
 
 RECURSIVE SeqsUpTo(_, _)
 SeqsUpTo(S, n) == IF n = 0 THEN {<< >>}
                   ELSE LET P == SeqsUpTo(S, n - 1) IN P \cup {Append(p, s) : p \in {q \in P : Len(q) = n - 1}, s \in S}
 
-MCInit == \E ss \in SeqsUpTo(Sane, MaxReqs) \ {<< >>}, st \in BOOLEAN, idle \in {"inloop"} :
-             InitWith(Layout(ss, 0), [streaming |-> st, idle |-> idle])
+MCInit == \E ss \in SeqsUpTo(Sane, MaxReqs) \ {<< >>}, st \in BOOLEAN, tr \in BOOLEAN, wf \in 0 .. 1, cut \in BOOLEAN :
+             InitWith(CutLast(Layout(ss, 0), cut), [streaming |-> st, idle |-> "inloop", trace |-> tr, wfail |-> wf])
 MCSpec == MCInit /\ [][Next]_vars
 =============================================================================
